@@ -135,6 +135,7 @@ func (t *collationSortedTree[K, V]) Insert(key K, val V) {
 	keyS, colKey := t.cok.Transform(key)
 
 	createLeaf := func() unsafe.Pointer {
+		colKey := bytes.Clone(colKey) // the leaf owns its collation key
 		return unsafe.Pointer(&collateLeafNode[V]{
 			colKey:    unsafe.SliceData(colKey),
 			key:       unsafe.SliceData(keyS),
@@ -303,6 +304,7 @@ func (t *collationSortedTree[K, V]) Range(start, end K) iter.Seq2[K, V] {
 	}
 
 	startKey, startColKey := t.cok.Transform(start)
+	startColKey = bytes.Clone(startColKey) // the next Transform reuses the buffer
 	endKey, endColKey := t.cok.Transform(end)
 
 	return rangeScan[K, V, *collateLeafNode[V]](t.root, startKey, endKey, startColKey, endColKey, t.restoreKey)
